@@ -18,7 +18,7 @@ def gen_case(seed, i, engine, n_clients):
 
 
 def check(rep, tier, seed):
-    n, n_clients = (45, 4) if tier == "quick" else (1500, 6)
+    n, n_clients = (45, 4) if tier == "quick" else (6000, 6)
     cases = [gen_case(seed, i, ENGINES[i % 3], n_clients if i % 2 else 3) for i in range(n)]
     # the retry loop's rewrites also allocate revisions that must be resolved (every repair outcome)
     from . import c09
